@@ -14,7 +14,7 @@ TNext ==
      \/ Ev.ev = "open" /\ POpen(Ev.err)
      \/ Ev.ev = "read" /\ PRead(Ev.syms, Ev.err)
      \/ Ev.ev = "seek0" /\ PSeek0(Ev.err)
-     \/ Ev.ev = "end" /\ PEnd(Ev.sha_ok, Ev.len_ok, Ev.left)
+     \/ Ev.ev = "end" /\ PEnd(Ev.sha_ok, Ev.len_ok, Ev.left, Ev.partial)
      \/ Ev.ev = "note" /\ PNote
 TSpec == TInit /\ [][TNext]_<<pvars, l>>
 \* batch mode (C01_trace_all.cfg): print the first violated obligation of every trace and carry on,
